@@ -7,6 +7,8 @@
 //   codec corrupt <type> <rank> <dims> <seed> <mode> [m]  single byte corruptions of a tensor stream
 //   codec read <fmt...> x<hex> [extra...]                 read exactly these bytes (the input-level replay op)
 // Bytes travel as `x<lowercase hex>`, doubles as the 16 hex digits of their bit pattern (never `nan`).
+// In `codec obj` an id token `@<k>` stands for the k-th id (modulo their number) of the factory; the augmented line
+// of factory / wlearner / linear objects ends with `id=<resolved id>`, the one of gboost with `ids=<id1>,<id2>,...`.
 // A read attempt that kills the process leaves one line `C15-REPLAY codec read <fmt> x<hex>` on stderr.
 #include "common.h"
 
